@@ -29,14 +29,14 @@ Close(U, got, want) ==
 
 TMake == /\ Ev.ev = "make" /\ MakeAny(Ev.g)
 (* the text on the stream after the dump, tokenized by the harness, is what Render says *)
-TDump == /\ Ev.ev = "dump" /\ Dump(Ev.route, Ev.dec)
+TDump == /\ Ev.ev = "dump" /\ Dump(Ev.route, Ev.D)
          /\ text'.lines = Ev.lines
-TDumpConf == /\ Ev.ev = "dumpconf" /\ DumpConformer(Ev.route, Ev.i, Ev.dec)
+TDumpConf == /\ Ev.ev = "dumpconf" /\ DumpConformer(Ev.route, Ev.i, Ev.D)
              /\ text'.lines = Ev.lines
 (* a text of another program: whatever frames it holds, in the unit it declares *)
 TForeign ==
   /\ Ev.ev = "foreign"
-  /\ LET t == [fmt |-> Ev.fmt, unit |-> Ev.unit, dec |-> Ev.dec, lines |-> Ev.lines, small |-> FALSE, dumps |-> 0, world |-> 1]
+  /\ LET t == [fmt |-> Ev.fmt, unit |-> Ev.unit, dec |-> Ev.dec, lines |-> Ev.lines, small |-> FALSE, dumps |-> 0, world |-> 0]
          p == Parse(t, "all")
      IN /\ p.ok
         /\ PutText([act |-> "foreign", fmt |-> Ev.fmt, unit |-> Ev.unit, dec |-> Ev.dec], t,
